@@ -108,7 +108,7 @@ def search(ctx, protos):
     for p in protos:
         name = p['name']
         period = engine.period_of(p)
-        for a in gen_inputs.param_assignments(p, ctx.rng, per):
+        for a in gen_inputs.param_assignments(p, ctx.rng, per, dictionary=True):
             counts = []
             bad = None
             for n in range(5):
